@@ -36,7 +36,7 @@ impl Check for C09 {
         let p = params(tier);
         // structured shape: connect, exchange, queue a burst, one disconnect() from either side, keep stepping
         let tick = || (prop_oneof![Just(5_000u32), Just(16_000u32), Just(30_000u32), Just(100_000u32)]).prop_map(|dt_us| WOp::Tick { dt_us, server: true, clients: 255 });
-        let send = (any::<bool>(), prop_oneof![3 => 0u8..3, 1 => 0u8..64], prop_oneof![1 => 0u8..3, 3 => Just(3u8)], prop_oneof![6 => 5u16..200, 2 => 200u16..3000, 1 => 3000u16..20000]).prop_map(|(from_client, ch, mode, size)| if from_client { WOp::ClientSend { c: 0, ch, mode, size } } else { WOp::ServerSend { c: 0, ch, mode, size } });
+        let send = (any::<bool>(), prop_oneof![3 => 0u8..3, 1 => 0u8..64], prop_oneof![1 => 0u8..3, 3 => Just(3u8)], prop_oneof![2 => Just(0u16), 6 => 5u16..200, 2 => 200u16..3000, 1 => 3000u16..20000]).prop_map(|(from_client, ch, mode, size)| if from_client { WOp::ClientSend { c: 0, ch, mode, size } } else { WOp::ServerSend { c: 0, ch, mode, size } });
         let structured = (
             any::<u64>(),
             wclient_strategy(&p),
@@ -135,6 +135,18 @@ impl Check for C09 {
                             }
                         }
                     }
+                    // zero-length Reliable packets carry no identity: they are counted
+                    let sent_empty = log.api.iter().filter(|(s, _, a)| *s < s0 && matches!(a, Api::ClientSendEmpty { c: kk } if *kk == k)).count();
+                    let got_empty = w.server_events.iter().filter(|(s, _, e)| *s < tseq && matches!(e, SEv::Receive(a, d) if *a == addr && d.is_empty())).count();
+                    if got_empty < sent_empty {
+                        return CaseResult::fail(
+                            "oracle:c09:reliable_not_flushed:client_to_server:empty_packets",
+                            format!("client {k} submitted {sent_empty} zero-length Reliable packets before calling disconnect(); the server reported Disconnect({addr}) after delivering only {got_empty} of them"),
+                        );
+                    }
+                    if sent_empty > 0 {
+                        classes.push("empty_reliable_before_disconnect");
+                    }
                     classes.push("flush_clause_checked_c2s");
                 }
             }
@@ -154,6 +166,17 @@ impl Check for C09 {
                                 );
                             }
                         }
+                    }
+                    let sent_empty = log.api.iter().filter(|(s, _, a)| *s < s0 && matches!(a, Api::ServerSendEmpty { c: kk, accepted: true } if *kk == k)).count();
+                    let got_empty = slot.events.iter().filter(|(s, _, e)| *s < tseq && matches!(e, CEv::Receive(d) if d.is_empty())).count();
+                    if got_empty < sent_empty {
+                        return CaseResult::fail(
+                            "oracle:c09:reliable_not_flushed:server_to_client:empty_packets",
+                            format!("the server submitted {sent_empty} zero-length Reliable packets to client {k} before calling disconnect(); the client reported Disconnect after receiving only {got_empty} of them"),
+                        );
+                    }
+                    if sent_empty > 0 {
+                        classes.push("empty_reliable_before_disconnect");
                     }
                     classes.push("flush_clause_checked_s2c");
                 }
